@@ -211,8 +211,8 @@ def kepler2trs(kepler: "KeplerPosVel") -> "TrsPosVel":
 
     # Transformation from cartesian orbital to geocentric equatorial coordinate system
     PQW = rotation.R3(-kepler.Omega) @ rotation.R1(-kepler.i) @ rotation.R3(-kepler.omega)
-    R = np.squeeze(PQW @ np.expand_dims(r_orb.T, axis=r_orb.ndim))
-    V = np.squeeze(PQW @ np.expand_dims(v_orb.T, axis=v_orb.ndim))
+    R = np.squeeze(PQW @ np.expand_dims(r_orb.T, axis=r_orb.ndim), axis=-1)
+    V = np.squeeze(PQW @ np.expand_dims(v_orb.T, axis=v_orb.ndim), axis=-1)
 
     return np.hstack((R, V))
 
